@@ -188,12 +188,22 @@ type WireGen struct {
 	NowSec  int64
 	// Lits: command name -> literals its hand-written parser knows (subcommands)
 	Lits map[string][]string
+	// KeySeq, when set, is handed out in order by key() (the last one repeats): the first key
+	// argument gets KeySeq[0], the second KeySeq[1], ...
+	KeySeq []string
+	keyPos int
+}
+
+// ResetKeySeq restarts the key sequence for the next vector.
+func (g *WireGen) ResetKeySeq(seq ...string) {
+	g.KeySeq = seq
+	g.keyPos = 0
 }
 
 var wireVals = []string{"a", "b", "c", "v1", "", "10", "-1", "0", "1.5", "nx", "EX", "get", "match", "withscores", "limit", "x\x00y", "\xff\xfe", "*"}
 var wireInts = []string{"0", "1", "2", "-1", "-2", "3", "10", "100", "+5", "05", "9223372036854775807", "-9223372036854775808"}
 var wireBadInts = []string{"", "abc", "1.5", " 1", "9223372036854775808", "1e3", "0x10"}
-var wireFloats = []string{"0", "1", "-1", "0.5", "1.5", "2", "inf", "-inf", "+inf", "1e2", "3.0"}
+var wireFloats = []string{"0", "1", "-1", "0.5", "1.5", "2", "inf", "-inf", "+inf", "1e2", "3.0", "1000000", "1234567.25", "0.00001", "1e21"}
 var wireBadFloats = []string{"", "abc", "1..2", "nan"}
 var hostileToks = []string{"", "-1", "0", "1", "-9223372036854775808", "9223372036854775807", "99999999999999999999", "abc", "nan", "inf", "-inf",
 	"NX", "xx", "EX", "px", "keepttl", "get", "match", "count", "type", "withscores", "aggregate", "sum", "limit", "byscore", "rev", "before", "after",
@@ -201,7 +211,17 @@ var hostileToks = []string{"", "-1", "0", "1", "-9223372036854775808", "92233720
 
 func (g *WireGen) pick(n int) int        { return g.R.Intn(n) }
 func (g *WireGen) chance(p float64) bool { return g.R.Float64() < p }
-func (g *WireGen) key() string           { return g.Keys[g.pick(len(g.Keys))] }
+func (g *WireGen) key() string {
+	if len(g.KeySeq) > 0 {
+		k := g.KeySeq[len(g.KeySeq)-1]
+		if g.keyPos < len(g.KeySeq) {
+			k = g.KeySeq[g.keyPos]
+		}
+		g.keyPos++
+		return k
+	}
+	return g.Keys[g.pick(len(g.Keys))]
+}
 func (g *WireGen) randCase(s string) string {
 	b := []byte(s)
 	for i := range b {
@@ -273,7 +293,8 @@ func (g *WireGen) genComb(c *Comb, malformed float64, nkeys *int) []string {
 			return []string{strconv.Itoa(n)}
 		}
 		if !bad && (d == "ttl" || d == "ttlsec" || d == "ttlms") {
-			return []string{[]string{"100", "3600", "0", "-5", "7200"}[g.pick(5)]}
+			// never a TTL that could pass while the run lasts (also when read as milliseconds)
+			return []string{[]string{"3600000", "86400000", "0", "-5", "7200000"}[g.pick(5)]}
 		}
 		if !bad && (d == "at" || d == "atsec") {
 			return []string{strconv.FormatInt(g.NowSec+int64(3600*(1+g.pick(3))), 10)}
